@@ -71,7 +71,7 @@ def model_check(ctx):
     ctx.add_tlc("IterUnorderedMPI ideal rank0_node_only, rank 3 remote", res)
     ctx.require(res.ok, "IterUnorderedMPI node-only config violated")
     # deviation: the code as found
-    cfg = tlc.make_cfg(constants=iter_consts(3, 2, 1, EAGER, dev='{"NoEligibleWorker"}'), invariants=ITER_INVS)
+    cfg = tlc.make_cfg(constants=iter_consts(3, 2, 1, EAGER, dev='{"NoEligibleWorker"}'), invariants=["ExecutedExactlyOnce", "CollectedExactlyOnce"])
     res = tlc.run("IterUnorderedMPI", cfg)
     ctx.add_tlc("IterUnorderedMPI deviation NoEligibleWorker (max_workers=1)", res)
     ctx.require(not res.ok and res.error_name in ("ExecutedExactlyOnce", "CollectedExactlyOnce"),
@@ -91,7 +91,8 @@ def model_check(ctx):
         res = tlc.run("CreateMPI", cfg)
         ctx.add_tlc(f"CreateMPI ideal Size={size} max_workers={mw or None} ranks {remote} on another node", res)
         ctx.require(res.ok, f"CreateMPI with remote ranks violated: {res.error_kind} {res.error_name}")
-    cfg = tlc.make_cfg(constants=create_consts(3, 0, 2, EAGER, dev='{"SingleRootEOQ"}'), invariants=CREATE_INVS)
+    # (only the invariant the deviation is meant to break: which violated invariant TLC meets first must not depend on thread timing)
+    cfg = tlc.make_cfg(constants=create_consts(3, 0, 2, EAGER, dev='{"SingleRootEOQ"}'), invariants=["NoRecordLost"])
     res = tlc.run("CreateMPI", cfg)
     ctx.add_tlc("CreateMPI deviation SingleRootEOQ, eager sends", res)
     ctx.require(not res.ok and res.error_name == "NoRecordLost", "deviation SingleRootEOQ yields no counterexample (stale)")
